@@ -866,7 +866,8 @@ Proof.
     eapply (choice_loop_refines _ _ IH) in H; eauto.
   - (* Choice *)
     destruct gs as [|g1 [|g2 gs]].
-    + eapply (choice_loop_refines _ _ IH) in H; eauto.
+    + inv_pair H. exists [].
+      destruct (fail_here_refines [] s) as (Ha & Hs2). rewrite Ha, Hs2, app_nil_r. split; reflexivity.
     + cbn. destruct (go n m g1 ctx s) as [r1 s2] eqn:E1. use IH E1. inv_pair H.
       destruct r1; try exact I.
       * ok_elim P. fin_ok.
